@@ -75,6 +75,28 @@ def delta_of(prog, fn, summaries, s):
     return expr_delta(prog, summaries, s)
 
 
+_LAMBDAS = {}      # did of a local variable holding a lambda -> LambdaExpr node (filled per function by run())
+
+
+def _lambda_delta(prog, summaries, lam):
+    """(dV, dF) of one call of the lambda: all paths through its body (split at 'if(c){... return}') must have the same effect"""
+    def paths(stmts):
+        tot = (0, 0)
+        for i, st in enumerate(stmts):
+            if st.get("k") == "IfStmt" and always_exits(st["then"]) and not isinstance(st.get("else"), dict):
+                c = expr_delta(prog, summaries, st["cond"])
+                a = paths(st["then"].get("c", [st["then"]]) if st["then"].get("k") == "CompoundStmt" else [st["then"]])
+                b = paths(stmts[i + 1:])
+                if a != b:
+                    raise Inconsistent(st, "the paths through the lambda at line %s change the mesh differently: (dV,dF) = %s vs %s" % (lam.get("l"), a, b))
+                return (tot[0] + c[0] + a[0], tot[1] + c[1] + a[1])
+            d = delta_of(prog, None, summaries, st)
+            tot = (tot[0] + d[0], tot[1] + d[1])
+        return tot
+    body = lam.get("body") or {}
+    return paths(body.get("c", []))
+
+
 def expr_delta(prog, summaries, e):
     """(dV, dF) of evaluating expression e: the calls it makes, with the two arms of a conditional expression counted once (they
     must agree, like the two branches of an if)."""
@@ -84,6 +106,16 @@ def expr_delta(prog, summaries, e):
         return tot
     if e.get("k") == "LambdaExpr":
         return tot
+    # call of a local lambda: the effect of its body (every path through it must agree)
+    if e.get("k") == "CXXOperatorCallExpr" and e.get("op") == "()" and len(e.get("c", [])) >= 2:
+        o = strip(e["c"][1])
+        lam = _LAMBDAS.get(o["ref"].get("did")) if o.get("k") == "DeclRefExpr" and isinstance(o.get("ref"), dict) else None
+        if lam is not None:
+            d = _lambda_delta(prog, summaries, lam)
+            for a in e["c"][2:]:
+                da = expr_delta(prog, summaries, a)
+                d = (d[0] + da[0], d[1] + da[1])
+            return d
     if e.get("k") == "ConditionalOperator" and len(e.get("c", [])) == 3:
         c0 = expr_delta(prog, summaries, e["c"][0])
         a, b = expr_delta(prog, summaries, e["c"][1]), expr_delta(prog, summaries, e["c"][2])
@@ -119,6 +151,10 @@ def run(rep, prog, tier):
         summaries["cell::replace_node"] = (-1, 0)
     for qn, expect in (("local_mesh_refiner::split_edge", (1, 2)), ("local_mesh_refiner::merge_edge", (-1, -2)), ("local_mesh_refiner::swap_edge", (0, 0))):
         fn = prog.fn(qn)
+        _LAMBDAS.clear()
+        for v_ in walk(fn["body"]):
+            if v_.get("k") == "Var" and isinstance(v_.get("init"), dict) and strip(v_["init"]).get("k") == "LambdaExpr":
+                _LAMBDAS[v_["did"]] = strip(v_["init"])
         try:
             d = delta_of(prog, fn, summaries, fn["body"])
             if 2 * d[0] - d[1] == 0 and d == expect:
